@@ -82,3 +82,15 @@ package hook
 //@   loop 2
 //@     invariant 0 <= iter() && iter() <= len(hooks) && fresh(hooksNames) && len(hooksNames) == iter()
 //@     invariant forall(a, 0, iter(), hooksNames[a] == hooks[a].Name)
+
+// ---- C18: the rate limiter is built from the hook's settings ----------------------------------
+
+//@ pure golang.org/x/time/rate.Every golang.org/x/time/rate.NewLimiter
+
+//@ func CreateRateLimiter
+//@   prop C18
+//@   requires cfg != nil
+//@   modifies nothing
+//@   let interval := ite(cfg.Settings != nil, cfg.Settings.ExecutionMinInterval, 0)
+//@   let burst := ite(cfg.Settings != nil, cfg.Settings.ExecutionBurst, 0)
+//@   ensures [limiter] result == rate.NewLimiter(ite(interval != 0, rate.Every(interval), rate.Inf), ite(burst != 0, burst, 1))
